@@ -11,16 +11,18 @@ inrepo = "--repo" in sys.argv
 _meta0 = json.load(open(d + "/meta.json"))
 seed_pid = pid
 pid = _meta0.get("check_property", pid)
+tier = _meta0.get("check_tier", "quick")   # a trigger that inherently needs wall-clock time lives in the thorough tier
+judged = _meta0.get("judged_not_a_violation", "")  # the change was judged NOT to violate the property as stated
 if inrepo:
     assert subprocess.run(["git", "-C", "/repo", "status", "--porcelain", "--untracked-files=no"], stdout=-1, text=True).stdout.strip() == "", "/repo not clean"
     subprocess.run(["git", "-C", "/repo", "apply", d + "/patch.diff"], check=True)
     try:
-        p = subprocess.run(["./check", pid, "quick"], cwd="/verif", stdout=-1, stderr=subprocess.STDOUT, text=True)
+        p = subprocess.run(["./check", pid, tier], cwd="/verif", stdout=-1, stderr=subprocess.STDOUT, text=True)
     finally:
         subprocess.run(["git", "-C", "/repo", "checkout", "--", "."], check=True)
     out, rc = p.stdout, p.returncode
 else:
-    p = subprocess.run(["/verif/seedtest.sh", pid, d + "/patch.diff"], stdout=-1, stderr=subprocess.STDOUT, text=True)
+    p = subprocess.run(["/verif/seedtest.sh", pid, d + "/patch.diff", tier], stdout=-1, stderr=subprocess.STDOUT, text=True)
     out = p.stdout
     m = re.search(r"seedtest rc=(\d+)", out); rc = int(m.group(1)) if m else -1
 sigs = set()
@@ -36,11 +38,13 @@ first_missed = ("MISSED" in old) or meta.get("first_missed", False)
 meta["first_missed"] = bool(first_missed)
 if rc == 1 and sigs:
     shown = ", ".join(sigs[:6]) + (" (+%d more)" % (len(sigs) - 6) if len(sigs) > 6 else "")
-    meta["detected_by"] = f"{pid} quick exits 1: {shown}" + ("; first MISSED, caught after the check was strengthened (see DESIGN.md section of the property)" if first_missed else "")
-    meta["ran"] = ("git -C /repo apply patch.diff; ./check %s quick; git -C /repo checkout -- ." % pid) if inrepo else meta.get("ran", "")
+    meta["detected_by"] = f"{pid} {tier} exits 1: {shown}" + ("; first MISSED, caught after the check was strengthened (see DESIGN.md section of the property)" if first_missed else "")
+    meta["ran"] = ("git -C /repo apply patch.diff; ./check %s %s; git -C /repo checkout -- ." % (pid, tier)) if inrepo else meta.get("ran", "")
     meta["last_run_in_repo"] = inrepo or meta.get("last_run_in_repo", False)
+elif judged:
+    meta["detected_by"] = f"not reported, by design (rc={rc}): judged not to violate {seed_pid} as stated - {judged}"
 else:
-    meta["detected_by"] = f"NOT DETECTED by {pid} quick (rc={rc})" + ("; " + old if old and "NOT DETECTED" not in old else "")
+    meta["detected_by"] = f"NOT DETECTED by {pid} {tier} (rc={rc})" + ("; " + old if old and "NOT DETECTED" not in old else "")
 import os
 vs = os.environ.get("VERIF_SEED", "1")
 meta.setdefault("detected_at_verif_seed", {})[vs] = bool(rc == 1 and sigs)
